@@ -351,6 +351,8 @@ def evSize (st : St) (n : Node) : EvRes × St :=
 def evIdentity (st : St) (n : Node) : EvRes × St :=
   match n.inputs, n.outputs with
   | some x :: _, o :: _ =>
+    -- backward shape inference, never onto a graph input: its declared type is the model's interface (commit 71af564)
+    if st.isGraphInput x then (.none, (st.setSym o (.alias x)).note "identity:alias") else
     let ix := st.getInfo x
     let io := st.getInfo o
     let shape' := match mergeShapes ix.shape io.shape with | some s => s | none => ix.shape
